@@ -1,6 +1,6 @@
 //! C29 / D13 demonstration: a task accepted by ThreadPool::submit_or_spawn is never run when the
 //! lingering auxiliary worker it was queued for times out at the same moment.
-use std::sync::atomic::{AtomicBool, AtomicUsize, Ordering};
+use std::sync::atomic::{AtomicBool, Ordering};
 use std::sync::Arc;
 use std::time::{Duration, Instant};
 
@@ -17,7 +17,6 @@ fn main() {
     let max_iters: usize = std::env::args().nth(1).and_then(|s| s.parse().ok()).unwrap_or(200_000);
     let group = ThreadGroup::new();
     let pool = group.start_pool(Some("demo".to_owned()), 0, linger).unwrap();
-    let spawned = Arc::new(AtomicUsize::new(0));
     let start = Instant::now();
     for iter in 0..max_iters {
         // Task A: no worker is available (0 permanent workers), so an auxiliary worker W is spawned;
@@ -25,8 +24,21 @@ fn main() {
         let a_done = Arc::new(AtomicBool::new(false));
         let a = a_done.clone();
         pool.submit_or_spawn(move || a.store(true, Ordering::SeqCst)).unwrap();
-        while !a_done.load(Ordering::SeqCst) {
+        let a_deadline = Instant::now() + Duration::from_millis(300);
+        while !a_done.load(Ordering::SeqCst) && Instant::now() < a_deadline {
             std::hint::spin_loop();
+        }
+        if !a_done.load(Ordering::SeqCst) {
+            // A itself was queued for a worker left over from the previous iteration, which then
+            // timed out: the same defect.
+            println!("iteration {iter}: task A accepted (Ok) but not run after 300 ms");
+            group.shut_down();
+            group.await_shutdown();
+            println!(
+                "group.await_shutdown() returned; task A has run: {}   <-- C29 violated (stranded task)",
+                a_done.load(Ordering::SeqCst)
+            );
+            std::process::exit(1);
         }
         let t0 = Instant::now();
         // Submit task B about when W's linger timeout expires (jitter sweeps across the window).
@@ -56,7 +68,6 @@ fn main() {
         }
         // let the worker(s) time out so that the next iteration starts from an empty pool
         std::thread::sleep(linger * 3);
-        let _ = &spawned;
     }
     group.shut_down();
     group.await_shutdown();
